@@ -372,7 +372,7 @@ def check_encoding(prog, rep, m):
     entry = 'viewshed output'
     consts = {n: const(v[0]) for n, v in m.assigns.items() if len(v) == 1}
     rep.add('T5', m, entry, 'INVISIBLE = %s' % consts.get('INVISIBLE'), 1, consts.get('INVISIBLE') == -1, 'invisible cells are -1')
-    cpu = m.funcs.get('_viewshed_cpu')
+    cpu = _cpu_entry(prog, m)
     # the grid handed to the kernels starts entirely INVISIBLE, as float64 of the raster's shape
     grid = None
     for c in calls(cpu.node):
@@ -532,6 +532,21 @@ def check_axes(prog, rep, m):
     check_wrapper(prog, rep, m, entry)
 
 
+def _cpu_entry(prog, m):
+    """the Python-level function that runs the sweep on a numpy raster: the one that calls the sweep kernel (whatever it is
+    called)"""
+    f = m.funcs.get('_viewshed_cpu')
+    if f is not None:
+        return f
+    sw = m.funcs.get('_viewshed_cpu_sweep')
+    for g in m.funcs.values():
+        if g.jit is None and not g.is_lambda and sw is not None:
+            for c in calls(g.node):
+                if c in g.own_nodes() and prog.resolve_callable(g, m, c.func) is sw:
+                    return g
+    return None
+
+
 def _const_value(prog, m, e):
     """value of a constant expression, module-level constants folded (`VIEWPOINT_ANG = 180`)"""
     v = const(e)
@@ -548,7 +563,7 @@ def check_wrapper(prog, rep, m, entry):
     """T6 / T7 / T8 / T10 on the wrapper terms of `_viewshed_cpu` (wterm.py): what the sweep kernel receives, as terms
     over the wrapper's parameters - local names, tuple assignments, keyword arguments and helper functions do not matter"""
     from ..wterm import WT, eval_term, key, mentions, show as tshow
-    cpu = m.funcs.get('_viewshed_cpu')
+    cpu = _cpu_entry(prog, m)
     sw = m.funcs.get('_viewshed_cpu_sweep')
     if cpu is None or sw is None:
         raise AnalysisIncomplete('_viewshed_cpu / _viewshed_cpu_sweep not found')
